@@ -336,42 +336,70 @@ def equality_rules(R, lib, consts):
 
 
 def manual_rule(R, lib, consts):
+    """R4 by interpretation (E-SEQ, typed): manual TimeZone objects (type kTypeManual, a standard and a DST offset in minutes)
+    are put through getUtcOffset / getDeltaOffset / getOffsetDateTime / printShortTo with their real bodies; the offsets that come
+    out are std + dst, dst, std + dst, and the text printed is the ISO form of std + dst."""
+    from .aeval import AEval, AObj, CxxModule, Raised, cxx_object
+    from .rules_C15 import print_intrinsics
     R.rule('R4', 'a manual zone reports std + dst as its total offset and dst as its DST offset', floor=4)
-    v = consts['TZ.kTypeManual']
-    std, dst = Poly.atom(('sym', 'this.mStdOffsetMinutes')), Poly.atom(('sym', 'this.mDstOffsetMinutes'))
-    for name, want in (('getUtcOffset', std + dst), ('getDeltaOffset', dst), ('getOffsetDateTime', std + dst)):
+    mod = CxxModule(lib, ['ace_time::'])
+    intr = print_intrinsics()
+    samples = [(-480, 60), (0, 0), (330, 0), (60, -60), (-210, 30), (765, 60), (-720, 0), (0, 60)]
+
+    def zone(s, d):
+        z = cxx_object(lib, TZ)
+        if 'mStdOffsetMinutes' not in z.attrs or 'mDstOffsetMinutes' not in z.attrs or 'mType' not in z.attrs:
+            raise AnalysisError('anchor moved: TimeZone no longer holds mType / mStdOffsetMinutes / mDstOffsetMinutes')
+        z.attrs.update({'mType': consts['TZ.kTypeManual'], 'mStdOffsetMinutes': s, 'mDstOffsetMinutes': d})
+        return z
+
+    def call(f, args, recv):
+        return AEval(module=mod, intrinsics=intr, typed=True, max_steps=100000).call_function(f.name, list(args), recv=recv, chosen=CxxModule._Fn(f))
+
+    def minutes(o):
+        if isinstance(o, AObj) and 'mMinutes' in o.attrs:
+            return o.attrs['mMinutes']
+        return 'not a TimeOffset (%r)' % (o,)
+    for name, want, mk in (('getUtcOffset', lambda s, d: s + d, lambda: [0]), ('getDeltaOffset', lambda s, d: d, lambda: [0]), ('getOffsetDateTime', lambda s, d: s + d, None)):
         f = lib.fn(TZ + '::' + name)
         c = '%s:manual' % f.name
-        R.instance('R4', c, f.loc)
-        from .gnf import small_helper_inliner
-        sx4 = SymExec(fold_global=lib.global_value)
-        sx4.inliner = small_helper_inliner(lib, [TZ + '::'])
-        s = sx4.run(f.name, f.body, {})
-        hits = select(s, 'this.mType', v)
-        found = False
-        for kind, res, eff in hits:
-            keys = [res] + [val for _t, val in eff]
-            for k in keys:
-                if k is None:
-                    continue
-                for a in _all_fn_atoms(_P(k)):
-                    if a[1] == 'ace_time::TimeOffset::forMinutes' and len(a[2]) == 1 and _P(a[2][0]) == want:
-                        found = True
-        if not found:
-            R.violation('R4', c, f.loc, 'the manual arm does not build its offset from %r' % want)
-    # printShortTo (loops free, but prints): the offset printed is std + dst
+        R.instance('R4', c, f.loc, '%d manual zones interpreted' % len(samples))
+        bad = None
+        for s, d in samples:
+            try:
+                if mk is not None:
+                    got = minutes(call(f, mk(), zone(s, d)))
+                else:
+                    ldt = cxx_object(lib, 'ace_time::LocalDateTime')
+                    ldt.attrs['mLocalDate'].attrs.update({'mYearTiny': 5, 'mMonth': 6, 'mDay': 15})
+                    ldt.attrs['mLocalTime'].attrs.update({'mHour': 12, 'mMinute': 30, 'mSecond': 0})
+                    r = call(f, [ldt], zone(s, d))
+                    got = minutes(r.attrs.get('mTimeOffset')) if isinstance(r, AObj) else 'not an OffsetDateTime (%r)' % (r,)
+            except Raised as x_:
+                got = 'raises %s' % x_.what
+            if got != want(s, d) and bad is None:
+                bad = 'a manual zone with a standard offset of %d and a DST offset of %d minutes: %s() gives %s, expected %d minutes' % (s, d, name, got, want(s, d))
+        if bad:
+            R.violation('R4', c, f.loc, bad)
     f = lib.fn(TZ + '::printShortTo')
     c = '%s:manual' % f.name
-    R.instance('R4', c, f.loc)
-    ok = False
-    for e in all_exprs(f.body):
-        if e.k == 'call' and e.a[0] == 'ace_time::TimeOffset::forMinutes' and len(e.a[2]) == 1:
-            from .gnf import Canon
-            p = Canon()(e.a[2][0])
-            if p == std + dst:
-                ok = True
-    if not ok:
-        R.violation('R4', c, f.loc, 'printShortTo does not print std + dst for a manual zone')
+    R.instance('R4', c, f.loc, '%d manual zones interpreted' % len(samples))
+    bad = None
+    for s, d in samples:
+        if (s, d) == (0, 0):
+            continue                    # the zone without offsets prints its name, "UTC"
+        pr = AObj({'out': []}, oid='printer', cls='Print')
+        try:
+            call(f, [pr], zone(s, d))
+            text = ''.join(pr.attrs['out'])
+        except Raised as x_:
+            text = 'raises %s' % x_.what
+        tot = s + d
+        iso = '%s%02d:%02d' % ('-' if tot < 0 else '+', abs(tot) // 60, abs(tot) % 60)
+        if iso not in text and bad is None:
+            bad = 'a manual zone with a standard offset of %d and a DST offset of %d minutes prints %r, which does not contain %s (std + dst)' % (s, d, text, iso)
+    if bad:
+        R.violation('R4', c, f.loc, bad)
 
 
 def _all_fn_atoms(p, depth=0):
